@@ -87,6 +87,7 @@ class Canon:
                     del self.defs[vid]
         self.multi = {vid for vid, c in wcount.items() if c}
         self._stack = set()
+        self._depth = 0
         self.ordinal = {}
         if uniform:
             for n in walk(fn.body):
@@ -141,6 +142,15 @@ class Canon:
             cal = strip(s["c"][0])
             obj = (cal.get("c") or [None])[0] if cal and cal.get("k") == "MemberExpr" else None
             o = self.c(obj) if obj is not None else ""
+            if self.uniform and o in ("this", "") and len(s["c"]) == 1 and self._depth < 3:
+                # a parameterless const getter of the same object whose body is one return: its value
+                g = self.fn.facts.by_id.get((s.get("callee") or {}).get("id"))
+                if g is not None and g.body is not None and (s.get("callee") or {}).get("const") and g is not self.fn:
+                    st = [x for x in (g.body.get("c") or []) if x.get("k") != "NullStmt"]
+                    if len(st) == 1 and st[0].get("k") == "ReturnStmt" and st[0].get("value") is not None:
+                        sub = Canon(g, uniform=True)
+                        sub._depth = self._depth + 1
+                        return sub.c(st[0]["value"])
             name = (s.get("callee") or {}).get("n", "?")
             args = ", ".join(self.c(a) for a in s["c"][1:])
             return "%s%s(%s)" % (o + "." if o not in ("this", "") else "", name, args)
